@@ -78,10 +78,12 @@ RoundsUp(mode, neg, rd, sticky, codd) ==
     [] mode = ToNearestEven -> rd > 5 \/ (rd = 5 /\ (sticky \/ codd))
 
 (* The result of rounding: [form, neg, dig, exp, acc]  (no attributes)    *)
-Res(form, neg, dig, exp, acc) ==
+(* `why` names the branch taken (coverage bookkeeping only; never compared) *)
+ResW(form, neg, dig, exp, acc, why) ==
   [form |-> form, neg |-> neg,
    dig |-> IF form = "finite" THEN dig ELSE Zero,
-   exp |-> IF form = "finite" THEN exp ELSE IZero, acc |-> acc]
+   exp |-> IF form = "finite" THEN exp ELSE IZero, acc |-> acc, why |-> why]
+Res(form, neg, dig, exp, acc) == ResW(form, neg, dig, exp, acc, "special")
 
 (***************************************************************************)
 (* RoundTo: (-1)^neg * N/D * 10^e rounded once to p >= 1 digits.           *)
@@ -89,10 +91,10 @@ Res(form, neg, dig, exp, acc) ==
 RoundTo(neg, N, D, e, p, mode) ==
   LET t  == MagOf(N, D)
       E0 == IAddInt(e, t)                        \* 10^(E0-1) <= |x| < 10^E0
-  IN IF ILt(E0, MinExp) THEN Res("zero", neg, Zero, IZero, IF neg THEN Above ELSE Below)     \* underflow
-     ELSE IF IGt(E0, MaxExp) THEN Res("inf", neg, Zero, IZero, IF neg THEN Below ELSE Above) \* overflow
+  IN IF ILt(E0, MinExp) THEN ResW("zero", neg, Zero, IZero, IF neg THEN Above ELSE Below, "underflow")
+     ELSE IF IGt(E0, MaxExp) THEN ResW("inf", neg, Zero, IZero, IF neg THEN Below ELSE Above, "overflow")
      ELSE IF D = One /\ Len(N) - TrailingZeros(N) <= p
-          THEN Res("finite", neg, StripTZ(N), E0, Exact)          \* fits: stored unchanged
+          THEN ResW("finite", neg, StripTZ(N), E0, Exact, "fits")          \* fits: stored unchanged
      ELSE
        LET s  == p + 1 - t                       \* scale so that the quotient has exactly p+1 digits
            QR == IF s >= 0 THEN DivMod(Shl(N, s), D) ELSE DivMod(N, Shl(D, -s))
@@ -106,8 +108,11 @@ RoundTo(neg, N, D, e, p, mode) ==
            carry == Len(c1) > p                  \* 99..9 + 1
            E1 == IF carry THEN IAddInt(E0, 1) ELSE E0
            acc == IF exact THEN Exact ELSE IF inc # neg THEN Above ELSE Below
-       IN IF IGt(E1, MaxExp) THEN Res("inf", neg, Zero, IZero, acc)
-          ELSE Res("finite", neg, StripTZ(c1), E1, acc)
+           why == IF exact THEN "exact"
+                  ELSE (IF rd = 5 /\ ~sticky THEN "tie-" ELSE IF rd = 0 THEN "stickyonly-" ELSE "")
+                       \o (IF inc THEN (IF carry THEN "carry" ELSE "up") ELSE "down")
+       IN IF IGt(E1, MaxExp) THEN ResW("inf", neg, Zero, IZero, acc, "carry-overflow")
+          ELSE ResW("finite", neg, StripTZ(c1), E1, acc, why)
 
 (* the exact value of a finite Decimal as N * 10^e *)
 CoefExp(d) == ISub(d.exp, IFromInt(Len(d.dig)))      \* value = dig * 10^CoefExp
